@@ -46,9 +46,9 @@ claim("C05", "model_checking", "SCHED", "preemption-bounded exhaustive interleav
       "exit and exit-time TLS destructors; the handle must be freed exactly once, after the last reference, never touched afterwards.", SCHED_NOTE, "5 C05")
 claim("C08", "model_checking", "SEQ", "explicit-state BFS to closure over the ring positions of the real PShmBuffer vs a byte-deque reference",
       "For every capacity 1..6 (thorough ..9,12) the complete reachable (read_pos, write_pos) graph is explored with every length 0..S+1 through two handles (second opened with equal, larger "
-      "and smaller size); return values, FIFO bytes and space accounting are compared with a reference deque after every operation. Concurrent part: see level_note.",
-      "trusted: the kernel's POSIX shm/semaphores (real /dev/shm), gcc/ASan. The concurrent clause (atomicity of simultaneous reads/writes) is not yet covered by this check (IPC wraps for the "
-      "scheduler are in progress); known finding: handle opened with a smaller size (known_findings.txt).", "5 C08")
+      "and smaller size); return values, FIFO bytes and space accounting are compared with a reference deque after every operation; concurrent write/read/used/clear by 2-3 handles are explored over all interleavings (preemption bound 2/3) and must be linearizable.",
+      "trusted: the kernel's POSIX shm/semaphores (real /dev/shm), gcc/ASan, our scheduler runtime for the concurrent part (2-3 threads with own handles, every IPC system call a scheduling point, "
+      "results checked against all sequential orders). Known finding: handle opened with a smaller size (known_findings.txt).", "5 C08")
 claim("C15", "model_checking", "SEQ", "explicit-state BFS to closure over bucket-chain states of the real PHashTable and all PList contents up to a length, under UBSan/ASan",
       "Chain states over a 13-key universe built to collide and to hit the integer-conversion edges, <= 3 (quick) / 4 live keys x 3 values; every insert/remove/lookup/keys/values/"
       "lookup_by_value in every state vs an assoc array; every list content up to length 5 (8) x every op vs an array; UB is decided by the sanitizers.", "trusted: gcc UBSan/ASan; white-box chain dump by #including phashtable.c", "5 C15")
@@ -64,6 +64,15 @@ claim("C16", "exploration", "SEQ", "bounded-exhaustive enumeration of file conte
 claim("C17", "exploration", "SEQ", "bounded-exhaustive enumeration of addresses, ports, strings and buffer lengths vs the platform resolver functions",
       "Boundary-class IPv4 exhaustively (all 2^32 in thorough), all ports, structured IPv6 with flow/scope, every string up to length 6 (7) over an address alphabet, every native length 0..40 on "
       "exact-size heap blocks under ASan; oracle = inet_pton/inet_ntop/getaddrinfo of this platform.", "trusted: glibc's inet_pton/inet_ntop/getaddrinfo; gcc ASan.", "5 C17")
+
+IPC_NOTE = ("trusted: this kernel's POSIX named semaphores / shared memory (real /dev/shm objects, no model), the reference models in harness/ipc_hist.c, our scheduler runtime for part (b). "
+            "Bounds: 2 names x 3 handle slots x 2 processes, history depth 4 (quick) / 5, preemption bound 2/3, every IPC-call crash point of 3-4 victim scripts. Known findings are listed in known_findings.txt.")
+claim("C06", "model_checking", "SEQ+SCHED+FAULT", "BFS over cross-process histories on real kernel objects vs a reference model + exhaustive interleavings + exhaustive crash-point enumeration",
+      "Histories of new(OPEN|CREATE)/acquire/release/take_ownership/free over 2 names, 3 handles, 2 forked processes are enumerated by BFS with state dedup and run on the real semaphores; blocking is reported "
+      "by the process itself, not inferred from timing; all interleavings of concurrent acquirers and of an open racing an owner free; SIGKILL before/after every IPC call followed by the documented recovery.", IPC_NOTE, "5 C06")
+claim("C07", "model_checking", "SEQ+SCHED+FAULT", "BFS over cross-process histories on real kernel objects vs a reference model + exhaustive interleavings + exhaustive crash-point enumeration",
+      "Histories of new/write/read/lock/unlock/take_ownership/free over 2 names, 3 sizes, 3 handles in 2 forked processes (same bytes, sizes, lock as one mutex, names gone after owner free, fresh zero-filled "
+      "segment afterwards); all interleavings of concurrent lockers and of concurrent first-time creators; SIGKILL before/after every IPC call followed by the documented clean-up.", IPC_NOTE, "5 C07")
 
 PENDING_REASON = "engine for this property is not finished in the committed tree yet (see DESIGN.md section 9); not served by a weaker technique meanwhile"
 
